@@ -134,7 +134,7 @@ func VerifC07Demoted() {
 		verifHeaderPage(p, uint32(n0), false)
 		rt.Check(db.WriteDatabaseAt(ctx, dbf, p, 0, 1) == nil, "page write while primary")
 		// the lease is lost
-		w.store.lease = nil
+		verifDemote(w.store)
 		var err2 error
 		switch rt.Choose("finalise", 3) {
 		case 0:
@@ -158,7 +158,7 @@ func VerifC07Demoted() {
 	m := &verifWALModel{salt1: rt.U32("wal.salt1"), salt2: rt.U32("wal.salt2"), overlay: map[uint32][]byte{}, pageN: uint32(n0)}
 	m.verifStartWAL(ctx, w, true)
 	m.verifC03Tx(ctx, w, 1, true)
-	w.store.lease = nil
+	verifDemote(w.store)
 	rt.Check(db.Unlock(ctx, 1, []LockType{LockTypeWrite}) == nil, "Unlock")
 	rt.Check(db.Pos() == pos0, "nothing is published: position unchanged")
 	rt.Check(len(verifLTXNames(db)) == 0 || verifLTXNames(db)[0] != ltx.FormatFilename(42, 42), "nothing is published: no transaction file")
